@@ -15,7 +15,7 @@ import os
 import sys
 
 from .sym import (SInt, SBool, SBuf, And, Or, Not, Implies, Iff, If, Eq, Abs, Min, Max,
-                  Unsupported, PathEnd, buf_equal, to_cells)
+                  Unsupported, PathEnd, buf_equal, to_cells, assemble_le, cells_equal)
 from .engine import Outcome
 
 
